@@ -709,6 +709,27 @@ def via_boundary_inputs():
     return out
 
 
+def impl_unpack(cls_name, b):
+    """`<cls_name>.unpack(b)` — the stage the dispatch selects (compared with `Soup.unpackAs`, not judged by the oracle)"""
+    try:
+        return ('ok', len(b), getattr(soup(), cls_name).unpack(b))
+    except Exception as e:  # noqa
+        return ('err', err_name(e))
+
+
+def check_unpack(ctx, b, model_line):
+    got = [outcome_text(impl_unpack(c, b)) for c in ENTRY_CLASSES[1:]]
+    want = model_line.split(' | ')
+    if want != got:
+        i = next((j for j, (x, y) in enumerate(zip(want, got)) if x != y), 0)
+        ctx.disagree(f'soup.unpack {ENTRY_CLASSES[1 + i]}.unpack: model {want[i][:70]} vs implementation {got[i][:70]}',
+                     {'kind': 'unpack', 'cls': ENTRY_CLASSES[1 + i], 'bytes': bytes(b).hex()})
+
+
+def unpack_model_line(b):
+    return f'soup.unpack {sx(ENTRY_CLASSES[1:])} {sx(bytes(b))}'
+
+
 def via_model_line(b):
     return f'soup.decvia {sx(ENTRY_CLASSES)} {sx(bytes(b))}'
 
@@ -1265,6 +1286,10 @@ def run(ctx):
     dec_inputs += [gen_decode_input(rng, seeds) for _ in range(n_dec)]
     dans = ctx.driver.ask([f'soup.dec {sx(b)}' for b in dec_inputs]) if ctx.driver.available else [None] * len(dec_inputs)
     vans = ctx.driver.ask([via_model_line(b) for b in dec_inputs]) if ctx.driver.available else [None] * len(dec_inputs)
+    usample = dec_inputs[::4]
+    uans = ctx.driver.ask([unpack_model_line(b) for b in usample]) if ctx.driver.available else []
+    for b, um in zip(usample, uans):
+        check_unpack(ctx, b, um)      # the per-class `unpack` (second stage of the dispatch) against `Soup.unpackAs`
     for b, m, vm in zip(dec_inputs, dans, vans):
         check_via(ctx, b, vm)         # the same bytes through each of the eleven entry points
         ctx.case('dec ' + b[:48].hex(), nontrivial=True, sample_every=211)
@@ -1332,6 +1357,14 @@ def replay(ctx, path):
         print('packet:', any_repr(c)[:300])
         print('implementation:', (r[0], r[1], bytes(r[2])[:60].hex()) if r[0] == 'ok' else r, '\nmodel:', (m or '-')[:200])
         print('framing clauses on the implementation:', any_failure(c, rep.get('next', 0), rep.get('cut')) or 'hold')
+    elif rep.get('kind') == 'unpack':
+        b = bytes.fromhex(rep['bytes'])
+        ctx.case('unpack ' + rep['cls'] + ' ' + rep['bytes'][:200])
+        ctx.case('replay-marker')
+        um = ctx.driver.ask([unpack_model_line(b)])[0]
+        check_unpack(ctx, b, um)
+        for c, w in zip(ENTRY_CLASSES[1:], um.split(' | ')):
+            print(f'{c}.unpack({b[:40]!r}): implementation {outcome_text(impl_unpack(c, b))[:100]}   model {w}')
     elif rep.get('kind') == 'decode-via':
         b = bytes.fromhex(rep['bytes'])
         ctx.case(rep['cls'] + ' ' + rep['bytes'][:200])
